@@ -17,7 +17,7 @@ SHAPES = [
     ("byte", [5]), ("byte", [1, -1, 255]), ("byte", [256, -128, 7, 8, 9]),
     ("half", [0x1234]), ("half", [-1, 65536]), ("half", [1, 65535, -32768]),
     ("word", [0x12345678]), ("word", [-1, 2**32 + 5]), ("word", [2**32 - 1, -2**31, 2**32]),
-    ("string", ""), ("string", "a"), ("string", "abc"), ("string", "abcd"),
+    ("string", ""), ("string", "a"), ("string", "abc"), ("string", "abcd"), ("string", "a  b"), ("string", "  x "),
     ("zero", 0), ("zero", 1), ("zero", 2),
     # large reservations: the variables behind them sit around the 0x...7FC / 0x...800 boundary, where the lui/addi
     # split of an address needs its carry compensation (la, load and store by name use separate copies of that code)
@@ -89,6 +89,18 @@ def check_decls(decls, radix, order, with_stores, p):
     before = DIRTY if (len(decls) + radix + order) % 2 == 0 else None
     if before:
         p.counters["loaded-over-an-earlier-program"] += 1
+    # the layout does not depend on the data-cache configuration: rotate none / write-back with multi-word blocks / write-through
+    from vf.adapt import rv as _rv
+    ck = (sum(len(str(v)) for _k, v in decls) + radix + 2 * order) % 4
+    simkw = {}
+    if ck == 1:
+        simkw["data_cache"] = _rv.cache_opts(0, 1, 2, "wb", "lru", 1)
+    elif ck == 2:
+        simkw["data_cache"] = _rv.cache_opts(1, 2, 1, "wb", "plru", 0)
+    elif ck == 3:
+        simkw["data_cache"] = _rv.cache_opts(0, 1, 1, "wt", "lru", 2)
+    if simkw:
+        p.counters["assembled-with-a-data-cache"] += 1
     data = render_data(decls, radix)
     bad = []
     # accessors: la / width-matching load for every variable and every index 0..len (one past the end included)
@@ -123,7 +135,7 @@ def check_decls(decls, radix, order, with_stores, p):
         text = frame(data, "\n".join(lines), order)
         p.evaluations += 1
         try:
-            a = asm.assemble(text, before=before)
+            a = asm.assemble(text, before=before, **simkw)
         except CaseTimeout:
             return [("termination", "load_program did not terminate", text)]
         except Exception as e:  # noqa
@@ -183,7 +195,7 @@ def check_decls(decls, radix, order, with_stores, p):
             text = frame(data, "\n".join(lines), order)
             p.evaluations += 1
             try:
-                a = asm.assemble(text, before=before)
+                a = asm.assemble(text, before=before, **simkw)
                 sim = a.sim
                 n = 0
                 while not sim.is_done() and n < 200:
@@ -206,7 +218,7 @@ def decl_features(decls):
     return dict(has_zero_decl=any(k == "zero" and v > 0 for k, v in decls))
 
 
-QUICK3 = [1, 2, 4, 7, 9, 11, 14, 16]  # shape subset for length 3 in the quick tier (every kind, the odd-sized ones)
+QUICK3 = [1, 2, 4, 7, 9, 11, 13, 18]  # shape subset for length 3 in the quick tier (every kind, the odd-sized ones)
 
 
 def decl_shard(shard):
@@ -363,7 +375,7 @@ def replay(case):
 
 def run(ctx):
     thorough = not ctx.quick
-    ctx.rule = ("(a) every sequence of up to 2 (3) declarations over 18 shapes (.byte/.half/.word with 1-5 values incl. negative and out-of-range literals in three "
+    ctx.rule = ("(a) every sequence of up to 2 (3) declarations over 20 shapes (.byte/.half/.word with 1-5 values incl. negative and out-of-range literals in three "
                 "radices, .string of 0-4 characters, .zero 0-2 and .zero 510 / 1023 so that later variables straddle a 2 KiB boundary), .data before and after .text, every other case loaded into a simulation that had already loaded (not run) a program with a larger non-zero data segment; for every variable and every index 0..len (one past the end) a la, "
                 "a zero- and a sign-extending width-matching load-by-name, and (for every element) a store-by-name. Oracles: reference layout (first data address, "
                 "4-byte alignment of every variable, strides 1/2/4, little-endian, values mod element width, NUL terminator, .zero n = n words of stride 4): byte image "
@@ -394,4 +406,4 @@ def run(ctx):
     if d:
         part.violation(dict(oracle="example", field="registers"), dict(kind="example"), d)
     ctx.space("help-page-example", part, t0)
-    ctx.require("alignment-after-odd-sized-variable", "string", "zero-reservation", "li-carry-into-upper-part", "variable-behind-a-2KiB-boundary", "loaded-over-an-earlier-program")
+    ctx.require("alignment-after-odd-sized-variable", "string", "zero-reservation", "li-carry-into-upper-part", "variable-behind-a-2KiB-boundary", "loaded-over-an-earlier-program", "assembled-with-a-data-cache")
